@@ -74,6 +74,15 @@ def run_ops(ops):
             elif op["op"] == "Solve":
                 with contextlib.redirect_stdout(io.StringIO()):
                     objs[op["obj"]][0].solve_jump_conditions()
+            elif op["op"] == "Query":
+                o, name = objs[op["obj"]]
+                q = registry.QUERIES.get(name, {}).get(op["q"])
+                if q is not None:
+                    with warnings.catch_warnings():
+                        warnings.simplefilter("ignore")
+                        with np.errstate(all="ignore"), contextlib.redirect_stdout(io.StringIO()):
+                            arg = [np.asarray(a, float) if isinstance(a, list) else a for a in q[1]]
+                            getattr(o, q[0])(*arg)
             elif op["op"] == "Call":
                 o, name = objs[op["obj"]]
                 sp = reg[name]
